@@ -188,7 +188,8 @@ StepUpdate ==
          resp == RespObs
          u    == Ev.args.u
          grew == u \in DOMAIN obs.ue /\ u \in DOMAIN pre.ue /\ Len(obs.ue[u].recs) > Len(pre.ue[u].recs)
-         a    == [u |-> u, ref |-> Ev.args.ref, usage |-> ConvUsage(Ev.args.usage), trig |-> Ev.args.trig, split |-> grew]
+         a    == [u |-> u, ref |-> Ev.args.ref, usage |-> ConvUsage(Ev.args.usage), trig |-> Ev.args.trig, split |-> grew,
+                  fault |-> Ev.args.fault]
          known == RefKnownH(u, a.ref)
          h2   == IF known THEN HUpdate(h, a, resp) ELSE h
          ok   == resp.status = 200
